@@ -195,3 +195,77 @@ def inline_calls(text, info):
         text = text[:start] + '{ ' + pre + binds + info['body'] + ' }' + text[pc + 1:]
         n += 1
     return text, n
+
+
+# ---------------------------------------------------------------------------------------------------
+# D31 -- `continue` in a `for` loop (Verus: "for-loops do not yet support continue")
+def desugar_for_continue(text):
+    """Inside the body of a `for` loop, a top-level statement `if C { S; continue; }` (no else) followed by
+    the rest R of the loop body is `if C { S } else { R }`: `continue` only skips R.  Applied repeatedly;
+    any other `continue` inside a `for` body is left alone (Verus then reports it: undecided).
+    Returns (text, number of rewrites)."""
+    from .rustsrc import find_loops
+    n = 0
+    guard = 0
+    while guard < 40:
+        guard += 1
+        b0 = text.find('{')
+        if b0 < 0:
+            return text, n
+        body = text[b0:]
+        rf = RustFile('<body>', body)
+        done = True
+        for kwoff, broff, kw in find_loops(body):
+            if kw != 'for':
+                continue
+            end = _match_close(body, broff, rf.code)
+            if end < 0:
+                continue
+            # top-level `if` statements of the loop body
+            d = 0
+            j = broff + 1
+            while j < end:
+                if not rf.code[j]:
+                    j += 1
+                    continue
+                c = body[j]
+                if c in '{([':
+                    d += 1
+                elif c in '})]':
+                    d -= 1
+                elif d == 0 and body.startswith('if', j) and re.match(r'if\b', body[j:j + 3]) and re.search(r'(?:^|[;{}])\s*$', body[broff + 1:j] if j > broff + 1 else '{'):
+                    # condition up to the `{` at depth 0
+                    k = j + 2
+                    pd = 0
+                    while k < end:
+                        if rf.code[k]:
+                            if body[k] in '([':
+                                pd += 1
+                            elif body[k] in ')]':
+                                pd -= 1
+                            elif body[k] == '{' and pd == 0:
+                                break
+                        k += 1
+                    ce = _match_close(body, k, rf.code)
+                    if ce < 0:
+                        break
+                    blk = body[k + 1:ce]
+                    code_blk = ''.join(ch if rf.code[k + 1 + t] else ' ' for t, ch in enumerate(blk))
+                    mm = re.search(r'\bcontinue\s*;\s*$', code_blk)
+                    after = body[ce + 1:end]
+                    if mm and not re.match(r'\s*else\b', after) and len(re.findall(r'\bcontinue\b', code_blk)) == 1:
+                        new_blk = blk[:mm.start()]
+                        rest = body[ce + 1:end]
+                        body = body[:k + 1] + new_blk + '} else {' + rest + '}' + body[end:]
+                        text = text[:b0] + body
+                        n += 1
+                        done = False
+                        break
+                    j = ce + 1
+                    continue
+                j += 1
+            if not done:
+                break
+        if done:
+            return text, n
+    return text, n
